@@ -62,6 +62,8 @@ func runC12(r *Run) {
 
 	r.Rule("C12.R9")
 	c12RspErrCause(r)
+	r.Rule("C12.R10")
+	c12GoSharedWrites(r, "client", "jsonclient")
 	// the leaf the client verifies an SCT over (rule sets of C01.R7 and C03.R8)
 	r.Shared("C12.R8", func() {
 		r.Rule("C01.R7")
